@@ -16,6 +16,7 @@ Step 0 is ``run``; step k>0 is the method ``vstep<k>``.  Continuations always po
 (arguments, the persisted ``_trace`` member) so programs are valid subjects for restart checks.
 """
 import asyncio
+import copy
 
 from . import generated
 
@@ -253,7 +254,9 @@ def _result_class(result):
 def _make_ret(proc, world, ret, plumpy):
     kind = ret['t']
     if kind == 'continue':
-        return plumpy.Continue(getattr(proc, step_name(ret['to'])), *ret.get('args', []), **ret.get('kwargs', {}))
+        # (fresh objects every time: a step may change its arguments in place)
+        return plumpy.Continue(getattr(proc, step_name(ret['to'])), *copy.deepcopy(ret.get('args', [])),
+                               **copy.deepcopy(ret.get('kwargs', {})))
     if kind == 'wait':
         if ret.get('to') is None:
             return plumpy.Wait(None, ret.get('msg'), ret.get('data'))  # a wait without continuation (can only be killed)
@@ -300,6 +303,13 @@ def _make_step(index, step, world, plumpy):
         if trace is not None:
             trace.append([name, freeze(args), freeze(kwargs)])
         world.site(self, f'step:{name}')
+        if step.get('mutargs'):
+            # the step works on its arguments in place (they are its own: nothing else may notice)
+            for value in list(args) + list(kwargs.values()):
+                if isinstance(value, list):
+                    value.append('changed-in-place')
+                elif isinstance(value, dict):
+                    value['changed-in-place'] = True
 
     if step.get('async'):
 
